@@ -15,9 +15,10 @@ import (
 
 	"github.com/deadsy/sdfx/render"
 	v2 "github.com/deadsy/sdfx/vec/v2"
+	. "verifharness/kit"
 )
 
-func init() { checks["C20"] = checkC20 }
+func main() { Main("C20", checkC20) }
 
 func triTerm(t render.TriangleI) string {
 	return fmt.Sprintf("(%s,%s,%s)", CZ(t[0]), CZ(t[1]), CZ(t[2]))
@@ -81,7 +82,7 @@ func checkC20(c *Ctx, r *Report) error {
 		}
 		equalsCase("corpus", a, b, true)
 	}
-	n := tierN(c.Tier, 1200, 20000, 6000)
+	n := TierN(c.Tier, 1200, 20000, 6000)
 	for k := 0; k < n; k++ {
 		// sizes: small (all permutations matter), around the insertion-sort limit 12, large
 		var sz int
@@ -136,7 +137,7 @@ func checkC20(c *Ctx, r *Report) error {
 		}
 		delaunayCase(r, "corpus", vs)
 	}
-	nd := tierN(c.Tier, 150, 3000, 600)
+	nd := TierN(c.Tier, 150, 3000, 600)
 	for k := 0; k < nd; k++ {
 		var npts int
 		var stratum string
